@@ -286,28 +286,28 @@ Theorem c01_reported_is_ledger_use : forall i c a e ii, lp_settings_ok i c -> re
 Proof. exact back_uses. Qed.
 Print Assumptions c01_reported_is_ledger_use.
 
-(* nothing reported is negative: people's shares (saved columns, and the percent series), the part of crops eaten
-   from new storage, every per-source feed and biofuel series *)
+(* nothing reported is negative: people's shares (saved columns, and the percent series), both parts of the crop split
+   (eaten immediately - since the clamp fix - and eaten from new storage), every per-source feed and biofuel series *)
 Theorem c01_reported_nonneg : forall i c ty a e ii, lp_settings_ok i c -> Feasible i ty a ->
   report (report_in i c a) = Ok (e, ii) -> 0 <= sw_kcals i -> forall m, (m < NM i)%nat ->
   (0 <= rh_sf ii m /\ 0 <= rh_cr ii m /\ 0 <= rh_sw ii m /\ 0 <= rh_cs ii m /\ 0 <= rh_scp ii m /\ 0 <= rh_meat ii m /\
-   0 <= nthq (k_ns ii) m) /\
+   0 <= nthq (k_imm ii) m /\ 0 <= nthq (k_ns ii) m) /\
   (0 <= rf_sf i c a m /\ 0 <= rf_cr i c a m /\ 0 <= rf_sw i c a m /\ 0 <= rf_cs i c a m /\ 0 <= rf_scp i c a m) /\
   (0 <= rb_sf i c a m /\ 0 <= rb_cr i c a m /\ 0 <= rb_sw i c a m /\ 0 <= rb_cs i c a m /\ 0 <= rb_scp i c a m) /\
   (0 <= nthq (p_sf ii) m /\ 0 <= nthq (p_cr ii) m /\ 0 <= nthq (p_sw ii) m /\ 0 <= nthq (p_cs ii) m /\
-   0 <= nthq (p_scp ii) m /\ 0 <= nthq (p_meat ii) m /\ 0 <= nthq (p_ns ii) m).
+   0 <= nthq (p_scp ii) m /\ 0 <= nthq (p_meat ii) m /\ 0 <= nthq (p_imm ii) m /\ 0 <= nthq (p_ns ii) m).
 Proof. exact rl_nonneg. Qed.
 Print Assumptions c01_reported_nonneg.
 
-(* ... with ONE exception (refuted): the column "outdoor crops eaten immediately" can be negative for a feasible
-   allocation of an admissible input - a month without harvest in which stored crops go to feed (the extractor
-   subtracts feed and biofuel in billion people fed from production in billion kcals); immediate + new stored still
-   equals the crops eaten (c04_split) *)
-Theorem c01_reported_immediate_crops_negative_refuted :
+(* BEFORE the clamp fix (report_before_clamp_fix: the extractor without np.maximum(..., 0) around production - feed -
+   biofuel) the column "outdoor crops eaten immediately" could be negative for a feasible allocation of an admissible
+   input - a month without harvest in which stored crops go to feed; observed on ARG (baseline year, rounds 2 and 3).
+   Kept as the machine-checked record of the repaired defect. *)
+Theorem c01_reported_immediate_crops_negative_before_clamp_fix :
   exists i c a e ii, lp_settings_ok i c /\ admissible i /\ Feasible i ToHumans a /\
-    report (report_in i c a) = Ok (e, ii) /\ nthq (k_imm ii) 1 < 0 /\ nthq (p_imm ii) 1 < 0.
-Proof. exact reported_immediate_crops_can_be_negative. Qed.
-Print Assumptions c01_reported_immediate_crops_negative_refuted.
+    report_before_clamp_fix (report_in i c a) = Ok (e, ii) /\ nthq (k_imm ii) 1 < 0 /\ nthq (p_imm ii) 1 < 0.
+Proof. exact reported_immediate_crops_negative_before_clamp_fix. Qed.
+Print Assumptions c01_reported_immediate_crops_negative_before_clamp_fix.
 
 (* foods that are supplies, not variables: the reported series is the supply itself *)
 Theorem c01_reported_given : forall i c a e ii, lp_settings_ok i c ->
